@@ -28,8 +28,11 @@ sys.path.insert(0, SRC)
 
 import envsim  # noqa: E402
 import fsim  # noqa: E402
+import kernel  # noqa: E402
 import model  # noqa: E402
 import sched  # noqa: E402
+
+KERNEL = kernel.KERNEL
 
 FS = fsim.FsSim()
 ENV = envsim.EnvSim()
@@ -46,6 +49,39 @@ class HangDetected(BaseException):
 
 OP_LIMIT = float(os.environ.get("VERIF_OP_LIMIT", "20"))
 PAR_LIMIT = float(os.environ.get("VERIF_PAR_LIMIT", "60"))
+
+
+class lib_run:
+    """Scope of one sequential op: threads the code under test starts inside
+    it are tasks of the kernel, scheduled by the world's seeded lib_sched
+    policy (DESIGN 3.4).  On the unchanged tree nothing is ever spawned and
+    this is inert."""
+
+    def __init__(self, w, opi, sink=None):
+        self.spec = dict(w.get("lib_sched") or {"policy": "rw", "quantum": 20, "scope": "nokw", "seed": 1})
+        self.spec["seed"] = self.spec.get("seed", 0) * 1000003 + opi
+        self.opi = opi
+        self.sink = sink
+
+    def __enter__(self):
+        pol = sched.make_policy(self.spec, 8, 5000)
+        KERNEL.begin_run(pol, scope_files(self.spec.get("scope", "nokw")), step_cap=5_000_000,
+                         fault_seed=self.spec["seed"], timeout_fire_p=self.spec.get("timeout_fire_p", 0.0))
+        KERNEL.main_real_timeout = PAR_LIMIT
+        self.started0 = KERNEL.counters["lib_threads_started"]
+        return self
+
+    def __exit__(self, *a):
+        KERNEL.untrace_current()
+        KERNEL.main_real_timeout = None
+        n = KERNEL.counters["lib_threads_started"] - self.started0
+        if n and self.sink is not None:
+            self.sink.append({"op": self.opi, "lib_threads": n, "events": KERNEL.n, "switches": KERNEL.switches,
+                              "engine_switches": sum(1 for (_, f, _) in KERNEL.switch_sites if f == "multidecoder.py"),
+                              "digest": model.digest([list(x) for x in KERNEL.switch_sites] + KERNEL.decisions[:2000]),
+                              "decisions": KERNEL.decisions if len(KERNEL.decisions) <= 64 else None,
+                              "ndecisions": len(KERNEL.decisions), "tasks": len(KERNEL.tasks)})
+        return False
 
 
 class watchdog:
@@ -79,6 +115,9 @@ def scope_files(kind):
         for f in files:
             if f.endswith(".py"):
                 out.add(os.path.join(d, f))
+    if kind == "nokw":
+        # everything except the per-keyword comprehension, which otherwise eats almost every step
+        out.discard(os.path.join(pkg, "keyword.py"))
     return out
 
 
@@ -196,12 +235,20 @@ class W09:
         scope = scope_files(spec.get("scope", "engine"))
         self.counters["par_scans"] += 1
 
+        with_view = bool(spec.get("view"))
+
         def mk(i, d):
             data = self.corpus[i]
 
             def fn():
                 try:
-                    return sc.scan(data, d)
+                    t = sc.scan(data, d)
+                    if with_view:
+                        # read-only views taken while other threads are still scanning
+                        t.flatten()
+                        for _ in t:
+                            pass
+                    return t
                 except Exception as e:  # noqa: BLE001
                     return e
 
@@ -221,9 +268,15 @@ class W09:
                 return
             est += n
             self.record(f"{i}:{d}:tree", t, task="dry")
-        policy = sched.make_policy(spec, len(fns), est)
-        s = sched.Scheduler(scope, policy, step_cap=20 * est + 1000)
-        tasks = s.run(fns, timeout=PAR_LIMIT)
+        policy = sched.make_policy(spec, len(fns) + 1, est)
+        s = KERNEL
+        s.begin_run(policy, scope, step_cap=20 * est + 1000, fault_seed=spec.get("seed", 0),
+                    timeout_fire_p=spec.get("timeout_fire_p", 0.0))
+        try:
+            tasks = s.run_tasks(fns, real_timeout=PAR_LIMIT)
+        except kernel.SimDeadlock as e:
+            self.record(f"{jobs[0][0]}:{jobs[0][1]}:tree", e, task="deadlock")
+            return
         if s.hung:
             self.aborted = True
         for (i, d), t in zip(jobs, tasks):
@@ -244,6 +297,7 @@ class W09:
             {
                 "op": self.opi,
                 "tasks": len(fns),
+                "lib_threads": KERNEL.counters["lib_threads_started"],
                 "events": s.n,
                 "switches": pre,
                 "engine_switches": eng,
@@ -330,24 +384,26 @@ class W09:
             if self.aborted:
                 break
             k = op[0]
-            if k == "new":
-                self.new_scanner(op[1])
-            elif k == "scan":
-                self.do_scan(op[1], op[2], op[3])
-            elif k == "scan_node":
-                self.do_scan(op[1], op[2], op[3], via_node=True)
-            elif k == "par_scan":
+            if k == "par_scan":
                 self.do_par_scan(op[1], op[2], op[3])
-            elif k == "view":
-                self.do_view(op[1])
-            elif k == "mutate":
-                self.do_mutate(op[1])
-            elif k == "cli":
-                self.do_cli(op[1], op[2], op[3])
-            elif k == "gc":
-                gc.collect()
-            else:
-                raise Harness("unknown op " + k)
+                continue
+            with lib_run(self.w, self.opi, self.interleavings):
+                if k == "new":
+                    self.new_scanner(op[1])
+                elif k == "scan":
+                    self.do_scan(op[1], op[2], op[3])
+                elif k == "scan_node":
+                    self.do_scan(op[1], op[2], op[3], via_node=True)
+                elif k == "view":
+                    self.do_view(op[1])
+                elif k == "mutate":
+                    self.do_mutate(op[1])
+                elif k == "cli":
+                    self.do_cli(op[1], op[2], op[3])
+                elif k == "gc":
+                    gc.collect()
+                else:
+                    raise Harness("unknown op " + k)
         self.opi = len(self.w["ops"])
         self.counters["aborted_after_hang"] = int(self.aborted)
         # nobody but its owner changes a result
@@ -358,6 +414,7 @@ class W09:
             if now != dg:
                 self.violations.append({"clause": "result_changed_later", "key": key, "was": dg, "now": now})
         self.counters["unsimulated_threads"] = max(0, threading.active_count() - base_threads)
+        self.counters["lib_threads_started"] = KERNEL.counters["lib_threads_started"]
         return {
             "results": self.results,
             "violations": self.violations,
@@ -1045,6 +1102,8 @@ def main():
     os.makedirs(scratch, exist_ok=True)
     FS.add_root(os.path.join(SRC, "multidecoder", "keywords"), "shipped")
     FS.add_root(scratch, "scratch")
+    kernel.install()
+    KERNEL.adopt_main()
     FS.install()
     ENV.configure(scn["worlds"][widx].get("env_seed", 0))
     ENV.install()
@@ -1062,6 +1121,7 @@ def main():
         ENV.uninstall()
     out["fs"] = FS.counters_json()
     out["envsim"] = dict(ENV.counters)
+    out["kernel"] = dict(KERNEL.counters)
     try:
         sys.stdout.flush()
     except Exception:  # noqa: BLE001
